@@ -2040,10 +2040,9 @@ class Graph:
             pulse.sources = [names[s] if s in names else s for s in pulse.sources]
             if pulse.dest in names:
                 pulse.dest = names[pulse.dest]
-        for k, deme in list(graph._deme_map.items()):
-            if k in names:
-                del graph._deme_map[k]
-                graph._deme_map[names[k]] = deme
+        # Rebuild the name index: updating it key by key loses entries when a
+        # new name is also an old name (e.g. swapping two names).
+        graph._deme_map = {deme.name: deme for deme in graph.demes}
         return graph
 
     @classmethod
